@@ -205,7 +205,7 @@ def job_shrink(prop, cls, cfg, scen_list, sched_list, target_site, max_evals, bu
             return None
         for v in rec["violations"]:
             if site_hash(v["site"]) == target and match_known(v, known) is None:
-                return (scen.trace, sched.trace)
+                return (scen.trace, sched.trace, scen.spans)
         return None
 
     first = test(scen_list, sched_list)
@@ -218,6 +218,7 @@ def job_shrink(prop, cls, cfg, scen_list, sched_list, target_site, max_evals, bu
     while b and b[-1] == 0:
         b.pop()
     out = job_replay(prop, cls, cfg, a, b)
+    out["scen"], out["sched"] = a, b  # the minimal lists, not the zero-padded consumed traces
     out["reproduced"] = True
     out["evals"] = evals
     _arm(0)
@@ -474,7 +475,7 @@ def run_check(prop: str, tier: str, seed: int, runs: int | None = None, workers:
             v = vs[0]
             rcfg = dict(cfg, fault_mode=v["fault_mode"], run_index=v["run_index"])
             rcfg.pop("class_offset", None)
-            shrink_jobs.append((sh, v, rcfg, pools.submit(len(shrink_jobs), job_shrink, prop, v["cls"], rcfg, v["scen"], v["sched"], v["site"], getattr(mod, "SHRINK_EVALS", 300), 120)))
+            shrink_jobs.append((sh, v, rcfg, pools.submit(len(shrink_jobs), job_shrink, prop, v["cls"], rcfg, v["scen"], v["sched"], v["site"], getattr(mod, "SHRINK_EVALS", 300), getattr(mod, "SHRINK_BUDGET_S", 150))))
             if len(shrink_jobs) >= 24:
                 break
         unshrunk_sites = sorted(by_site)[len(shrink_jobs) :]
